@@ -13,6 +13,7 @@ import (
 
 	ct "github.com/google/certificate-transparency-go"
 	"github.com/google/certificate-transparency-go/internal/verifkit"
+	"github.com/google/certificate-transparency-go/tls"
 	"github.com/google/trillian"
 )
 
@@ -413,6 +414,119 @@ func TestVerifC07(t *testing.T) {
 					out.Fail(key, "malformed backend reply answered 200")
 				}
 			}
+		}
+	}
+
+	// ---- decoding served entries: real RFC 6962 entries are stored, served through get-entries and get-entry-and-proof,
+	// and decoded with the library's entry parser; certificate / precertificate, chain, type and timestamp must come back
+	MaxGetEntriesAllowed, *alignGetEntries = 1000, true
+	nd := verifkit.N(200, 5000)
+	for it := 0; it < nd; it++ {
+		k := 1 + r.Intn(6)
+		type stored struct {
+			isPre     bool
+			ts        uint64
+			cert      []byte // certificate, or precert TBS
+			ikh       [32]byte
+			preCert   []byte
+			chain     [][]byte
+			leaf, ext []byte
+		}
+		var es []stored
+		base := int64(r.Intn(1000))
+		for i := 0; i < k; i++ {
+			e := stored{isPre: r.Bool(), ts: r.U64() >> uint(r.Intn(40)), cert: r.Bytes(1 + r.Intn(300))}
+			for j, n := 0, r.Intn(4); j < n; j++ {
+				e.chain = append(e.chain, r.Bytes(1+r.Intn(200)))
+			}
+			var chain []ct.ASN1Cert
+			for _, c := range e.chain {
+				chain = append(chain, ct.ASN1Cert{Data: c})
+			}
+			te := &ct.TimestampedEntry{Timestamp: e.ts}
+			var err error
+			if e.isPre {
+				copy(e.ikh[:], r.Bytes(32))
+				e.preCert = r.Bytes(1 + r.Intn(300))
+				te.EntryType = ct.PrecertLogEntryType
+				te.PrecertEntry = &ct.PreCert{IssuerKeyHash: e.ikh, TBSCertificate: e.cert}
+				e.ext, err = tls.Marshal(ct.PrecertChainEntry{PreCertificate: ct.ASN1Cert{Data: e.preCert}, CertificateChain: chain})
+			} else {
+				te.EntryType = ct.X509LogEntryType
+				te.X509Entry = &ct.ASN1Cert{Data: e.cert}
+				e.ext, err = tls.Marshal(ct.CertificateChain{Entries: chain})
+			}
+			if err != nil {
+				t.Fatal(err)
+			}
+			e.leaf, err = tls.Marshal(ct.MerkleTreeLeaf{Version: ct.V1, LeafType: ct.TimestampedEntryLeafType, TimestampedEntry: te})
+			if err != nil {
+				t.Fatal(err)
+			}
+			es = append(es, e)
+		}
+		fl := &verifkit.FuncLog{}
+		fl.GetLeavesByRangeF = func(req *trillian.GetLeavesByRangeRequest) (*trillian.GetLeavesByRangeResponse, error) {
+			rsp := &trillian.GetLeavesByRangeResponse{SignedLogRoot: vRoot(uint64(base)+uint64(k), make([]byte, 32), 1)}
+			for i := int64(0); i < req.Count && req.StartIndex-base+i < int64(k); i++ {
+				e := es[req.StartIndex-base+i]
+				rsp.Leaves = append(rsp.Leaves, &trillian.LogLeaf{LeafIndex: req.StartIndex + i, LeafValue: e.leaf, ExtraData: e.ext})
+			}
+			return rsp, nil
+		}
+		fl.GetEntryAndProofF = func(req *trillian.GetEntryAndProofRequest) (*trillian.GetEntryAndProofResponse, error) {
+			e := es[req.LeafIndex-base]
+			return &trillian.GetEntryAndProofResponse{SignedLogRoot: vRoot(uint64(base)+uint64(k), make([]byte, 32), 1),
+				Leaf:  &trillian.LogLeaf{LeafIndex: req.LeafIndex, LeafValue: e.leaf, ExtraData: e.ext},
+				Proof: &trillian.Proof{Hashes: [][]byte{make([]byte, 32)}}}, nil
+		}
+		li := vLogInfo(fl, nil, nil, nil, nil)
+		q := url.Values{}
+		q.Set("start", strconv.FormatInt(base, 10))
+		q.Set("end", strconv.FormatInt(base+int64(k)-1, 10))
+		var rsp ct.GetEntriesResponse
+		key := fmt.Sprintf("decode base=%d k=%d", base, k)
+		pn := verifkit.Guard(func() {
+			w := vServe(li, "get-entries", "GET", q, "")
+			if w.Code != 200 || json.Unmarshal(w.Body.Bytes(), &rsp) != nil || len(rsp.Entries) != k {
+				out.Fail(key, fmt.Sprintf("honest range answered %d with %d entries", w.Code, len(rsp.Entries)))
+				return
+			}
+			for i, le := range rsp.Entries {
+				e := es[i]
+				raw, err := ct.RawLogEntryFromLeaf(base+int64(i), &le)
+				if err != nil {
+					out.Fail(key, fmt.Sprintf("entry %d does not decode: %v", i, err))
+					continue
+				}
+				te := raw.Leaf.TimestampedEntry
+				ok := raw.Index == base+int64(i) && te.Timestamp == e.ts && len(raw.Chain) == len(e.chain)
+				for j := range e.chain {
+					ok = ok && j < len(raw.Chain) && string(raw.Chain[j].Data) == string(e.chain[j])
+				}
+				if e.isPre {
+					ok = ok && te.EntryType == ct.PrecertLogEntryType && te.PrecertEntry != nil && te.PrecertEntry.IssuerKeyHash == e.ikh &&
+						string(te.PrecertEntry.TBSCertificate) == string(e.cert) && string(raw.Cert.Data) == string(e.preCert)
+				} else {
+					ok = ok && te.EntryType == ct.X509LogEntryType && te.X509Entry != nil && string(te.X509Entry.Data) == string(e.cert) && string(raw.Cert.Data) == string(e.cert)
+				}
+				if !ok {
+					out.Fail(key, fmt.Sprintf("entry %d decodes to something else than what was stored (type/timestamp/certificate/chain)", i))
+				}
+				// the same index through get-entry-and-proof: same bytes
+				q2 := url.Values{}
+				q2.Set("leaf_index", strconv.FormatInt(base+int64(i), 10))
+				q2.Set("tree_size", strconv.FormatInt(base+int64(k), 10))
+				w2 := vServe(li, "get-entry-and-proof", "GET", q2, "")
+				var r2 ct.GetEntryAndProofResponse
+				if w2.Code != 200 || json.Unmarshal(w2.Body.Bytes(), &r2) != nil || string(r2.LeafInput) != string(le.LeafInput) || string(r2.ExtraData) != string(le.ExtraData) {
+					out.Fail(key, fmt.Sprintf("get-entry-and-proof for index %d differs from get-entries (status %d)", base+int64(i), w2.Code))
+				}
+				out.Count("class:decoded-entry")
+			}
+		})
+		if pn != "" {
+			out.Fail(key, "panic: "+pn)
 		}
 	}
 }
